@@ -200,13 +200,22 @@ def _validate_edit(ck, traces, label):
 
 def _edit(ck):
     """custom registry with edited contents: TLC generates every history of <= MaxLen calls (NamesEdit / MC_C14_edit)"""
-    maxlen = ck.q(2, 3)
+    maxlen = 2
     cfg = open(ck.spec + "/MC_C14_edit.cfg").read().replace("MaxLen = 2", f"MaxLen = {maxlen}")
     open(ck.spec + "/MC_C14_edit_run.cfg", "w").write(cfg)
-    res = ck.tlc("MC_C14_edit", "MC_C14_edit_run", workers=1, label=f"edited custom registry: histories of add/remove/modify/Unit(str)/add_symbols, MaxLen={maxlen}", required_actions=["Next"], timeout=3000)
+    res = ck.tlc("MC_C14_edit", "MC_C14_edit_run", workers=1, label=f"edited registries: every history of define_unit/add/remove/modify/Unit(str)/add_symbols, MaxLen={maxlen}", required_actions=["Next"], timeout=3000)
     hs = res.by_tag("HIST")
     if len(hs) != res.distinct or len(hs) < 20:
         raise MachineryFailure(f"exported {len(hs)} edit histories for {res.distinct} states")
+    deep = 0
+    if ck.tier == "thorough":
+        # one step deeper: state cover (VIEW hides the history; one witness history per distinct registry state)
+        res2 = ck.tlc("MC_C14_edit", "MC_C14_edit_cover", workers=1, label="edited registries: state cover at depth 3 (VIEW hides the history)", required_actions=["Next"], timeout=3000)
+        deeper = res2.by_tag("HIST")
+        if not deeper:
+            raise MachineryFailure("no depth-3 witnesses exported")
+        deep = len(deeper)
+        hs += deeper
     hs.sort(key=lambda r: (r["kind"], json.dumps(r["h"], sort_keys=True)))
     model_classes = sorted({(c["layer"]) for r in hs for c in r["stale"]})
     cases = [{"kind": r["kind"], "h": r["h"]} for r in hs]
@@ -216,7 +225,7 @@ def _edit(ck):
         raise MachineryFailure("edit-history replay error: " + str(bad[0]))
     nfail = _validate_edit(ck, traces, "hist")
     ck.sample({"edit_history": [_short_edit(e) for e in cases[len(cases) // 2]["h"]]})
-    ck.cov["edited_registry"] = {"max_len": maxlen, "histories": len(cases), "on_default_registry": sum(1 for c in cases if c["kind"] == "default"), "model_level_stale_layers": model_classes, "p_fail_records": nfail,
+    ck.cov["edited_registry"] = {"max_len_all_histories": maxlen, "depth3_state_cover_witnesses": deep, "histories": len(cases), "on_default_registry": sum(1 for c in cases if c["kind"] == "default"), "model_level_stale_layers": model_classes, "p_fail_records": nfail,
                                  "namespace_built": sum(1 for t in traces if t["final"]["nsok"]), "namespace_refused": sum(1 for t in traces if not t["final"]["nsok"])}
 
 
